@@ -10,6 +10,8 @@ func init() {
 	vRegister("H_C13_Stream", H_C13_Stream)
 	vRegister("H_C13_Handlers", H_C13_Handlers)
 	vRegister("H_C13_Handoff", H_C13_Handoff)
+	vRegister("H_C13_DeclaredSizes", H_C13_DeclaredSizes)
+	vRegister("H_C13_EncryptedLengthCap", H_C13_EncryptedLengthCap)
 	vRegister("H_C14_Packet", H_C14_Packet)
 	vRegister("H_C14_Stream", H_C14_Stream)
 }
@@ -405,4 +407,75 @@ func H_C14_Stream() {
 	case 4:
 		vAssert(either, "c14.str.splice-yields-other-plaintext")
 	}
+}
+
+// C13 caps: sizes declared in a well-formed header (push/pull node count and user-state length, user-message
+// length) beyond the documented caps are refused before anything is buffered; declared sizes within the caps
+// allocate at most what the caps allow. Headers are encoded with the real encoder so the witness replays.
+func H_C13_DeclaredSizes() {
+	conf := vBaseConfig()
+	f := vNewML(conf)
+	f.del = &vDelegateRec{}
+	conf.Delegate = f.del
+	f.vAddSelf(3, nil)
+	const nodeBytes = 112 // unsafe.Sizeof(pushNodeState{}) on 64-bit
+	const slack = 8 << 20 // buffers, decoder state, ... (the native counter sees every allocation)
+	var in []byte
+	kind := vPick(2)
+	nodes, ulen := 0, 0
+	capU := maxPushStateBytes
+	if kind == 0 {
+		nodes = vRange(-3, 3<<20)
+		ulen = vRange(-3, 48<<20)
+		hb, err := encode(pushPullMsg, &pushPullHeader{Nodes: nodes, UserStateLen: ulen, Join: vBool()}, false)
+		vAssert(err == nil, "c13.sizes.encode")
+		in = hb.Bytes()
+	} else {
+		ulen = vRange(-3, 48<<20)
+		hb, err := encode(userMsg, &userMsgHeader{UserMsgLen: ulen}, false)
+		vAssert(err == nil, "c13.sizes.encode")
+		in = hb.Bytes()
+		capU = maxUserMsgBytes
+	}
+	supplied := vPick(3)
+	in = append(in, vBytes(supplied)...)
+	before := vAllocated()
+	conn := &vConn{in: in, hang: vBool()}
+	f.m.handleConn(conn)
+	used := vAllocated() - before
+	// what the documented caps allow for these declared sizes: nothing at all for a size beyond its cap
+	allowed := uint64(slack)
+	if nodes >= 0 && nodes <= maxPushStateNodes {
+		allowed += uint64(nodes) * nodeBytes
+	}
+	if ulen > 0 && ulen <= capU {
+		allowed += uint64(ulen)
+	}
+	vAssert(used <= allowed, "c13.sizes.nothing-buffered-beyond-the-caps")
+	if ulen > supplied || ulen < 0 {
+		// more user data declared than supplied (or a nonsensical size): nothing may be acted on
+		vAssert(len(f.m.nodes) == 1 && len(f.del.merged) == 0 && len(f.del.msgs) == 0, "c13.sizes.incomplete-not-processed")
+	}
+	vAssert(conn.closed >= 1 && f.m.pushPullReq.Load() == 0, "c13.sizes.cleaned-up")
+	vCover("c13.sizes")
+}
+
+// C13 caps: an encrypted stream whose declared length exceeds the documented cap is refused before its body is
+// read: out of a long body only what the buffered reader had already fetched is ever consumed.
+func H_C13_EncryptedLengthCap() {
+	conf := vBaseConfig()
+	kr, _ := NewKeyring(nil, vBytes(16))
+	conf.Keyring = kr
+	f := vNewML(conf)
+	f.vAddSelf(3, nil)
+	// any declared length beyond the cap (all four prefix bytes symbolic)
+	l := vU32()
+	vAssume(l > maxPushStateBytes)
+	body := make([]byte, 20000)
+	in := append([]byte{byte(encryptMsg), byte(l >> 24), byte(l >> 16), byte(l >> 8), byte(l)}, body...)
+	conn := &vConn{in: in}
+	f.m.handleConn(conn)
+	vAssert(conn.pos <= 2*4096, "c13.enclen.body-not-read-beyond-the-cap")
+	vAssert(conn.closed >= 1, "c13.enclen.closed")
+	vCover("c13.enclen")
 }
